@@ -4,12 +4,15 @@ import SgModel.Driver.PersistSyntax
 /-!
 Driver for the Quota model (C18).  One request line per case:
 
-  quota        <cfg> <progs> <sched>  -> ok <results>|<nodes>|<edges>|<u0>|<u1>|<u2>|<trace>  | err recover
+  quota        <cfg> <progs> <sched>  -> ok <obs>|<trace>  | err recover
   quotalegacy  <cfg> <progs> <sched>  -> same, model of the pinned tree
-  specquota    <cfg> <progs> <results>|<nodes>|<edges>|<u0>|<u1>|<u2>  -> ok | viol:<part>
+  quotascanfirst <cfg> <progs> <sched> -> same, the wrong variant whose `recover` scans before locking
+  specquota    <cfg> <progs> <obs>  -> ok | viol:<part>
 
+  obs     := <results>|<nodes>|<edges>|<u0>|<probe>|<nodesP>|<uP>|<u1>|<u2>
+             (at quiescence; then the probe creation of node 99; then recover twice)
   cfg, op : as in Driver/Persist.lean
-  progs   := prog(/prog)*      prog := op(;op)* | -
+  progs   := prog(/prog)*      prog := call(;call)* | -      call := op | rc   (rc = recover)
   sched   := t(,t)* | -        (thread indices; after the schedule the threads are drained,
                                 lowest enabled thread first)
   results := r(,r)*(/…)* with - for a thread without calls
@@ -19,7 +22,13 @@ Driver for the Quota model (C18).  One request line per case:
 -/
 open SgModel SgModel.Driver SgModel.Persist SgModel.Quota SgModel.Driver.PersistSyntax
 
-def parseProgs? (s : String) : Option (List (List Op)) := (s.splitOn "/").mapM parseOps?
+def parseCall? (s : String) : Option Call :=
+  if s == "rc" then some .recover else (parseOp? s).map .op
+
+def parseCalls? (s : String) : Option (List Call) :=
+  if s == "-" then some [] else (s.splitOn ";").mapM parseCall?
+
+def parseProgs? (s : String) : Option (List (List Call)) := (s.splitOn "/").mapM parseCalls?
 
 def parseSched? (s : String) : Option (List Nat) :=
   if s == "-" then some [] else (s.splitOn ",").mapM (·.toNat?)
@@ -50,7 +59,7 @@ def traceEntry (I : Impl) (sys : Sys) (t : Nat) (sys' : Sys) : String :=
         | none => s!"{t}.?"
       else
         match th.prog with
-        | op :: _ => s!"{t}.{pointName (th.pc.getD (I.start op))}"
+        | op :: _ => s!"{t}.{pointName (th.pc.getD (callStart I op))}"
         | [] => s!"{t}.?"
     | _, _ => s!"{t}.?"
 
@@ -68,20 +77,22 @@ def drainTraced (I : Impl) (cfg : Cfg) : Nat → Sys → List String → Sys × 
       drainTraced I cfg fuel sys' (traceEntry I sys t sys' :: tr)
     | none => (sys, tr)
 
-def doQuota (I : Impl) (cfg : Cfg) (progs : List (List Op)) (sched : List Nat) : String :=
+def doQuota (I : Impl) (cfg : Cfg) (progs : List (List Call)) (sched : List Nat) : String :=
   let (s1, tr1) := runTraced I cfg (init progs) sched
   let (s2, tr2) := drainTraced I cfg (drainFuel s1) s1 tr1
   match obsOf I cfg s2 with
   | some o =>
     "ok " ++ showResults o.results ++ "|" ++ showIds o.nodes ++ "|" ++ showIds o.edges ++ "|"
-      ++ showPair o.usage0 ++ "|" ++ showPair o.usage1 ++ "|" ++ showPair o.usage2 ++ "|"
+      ++ showPair o.usage0 ++ "|" ++ showRes o.probe ++ "|" ++ showIds o.nodesP ++ "|"
+      ++ showPair o.usageP ++ "|" ++ showPair o.usage1 ++ "|" ++ showPair o.usage2 ++ "|"
       ++ showList' tr2.reverse
   | none => "err recover"
 
 def parseObs? (s : String) : Option Obs :=
   match s.splitOn "|" with
-  | [r, n, e, u0, u1, u2] => do
-      pure ⟨← parseResultsT? r, ← parseIds? n, ← parseIds? e, ← parsePair? u0, ← parsePair? u1, ← parsePair? u2⟩
+  | [r, n, e, u0, pr, np, up, u1, u2] => do
+      pure ⟨← parseResultsT? r, ← parseIds? n, ← parseIds? e, ← parsePair? u0, ← parseRes? pr,
+            ← parseIds? np, ← parsePair? up, ← parsePair? u1, ← parsePair? u2⟩
   | _ => none
 
 def handle (_ : Unit) (line : String) : Unit × String :=
@@ -91,6 +102,9 @@ def handle (_ : Unit) (line : String) : Unit × String :=
       | _, _, _ => ((), "bad-op")
   | ["quotalegacy", c, ps, sc] => match parseCfg? c, parseProgs? ps, parseSched? sc with
       | some c, some p, some s => ((), doQuota legacy c p s)
+      | _, _, _ => ((), "bad-op")
+  | ["quotascanfirst", c, ps, sc] => match parseCfg? c, parseProgs? ps, parseSched? sc with
+      | some c, some p, some s => ((), doQuota scanFirst c p s)
       | _, _, _ => ((), "bad-op")
   | ["specquota", c, ps, obs] => match parseCfg? c, parseProgs? ps, parseObs? obs with
       | some c, some p, some o =>
